@@ -71,6 +71,24 @@ def polyEqMod (hyps : List (E × E)) (cert : List E) (a b : E) : Bool :=
   hyps.length == cert.length &&
   polyEq (.sub a b) (sumE ((hyps.zip cert).map fun (h, c) => .mul c (.sub h.1 h.2)))
 
+/-! ### rewriting atoms by stated equalities (e.g. `cos (-t) ↦ cos t`, `sin (-t) ↦ -sin t`) -/
+def rw1 (σ : List (E × E)) (e : E) : E :=
+  match σ.find? (·.1 == e) with
+  | some p => p.2
+  | none => e
+
+/-- bottom-up replacement of every sub-term that literally equals a left-hand side of `σ` -/
+def E.rewrite (σ : List (E × E)) : E → E
+  | .add a b => rw1 σ (.add (a.rewrite σ) (b.rewrite σ))
+  | .sub a b => rw1 σ (.sub (a.rewrite σ) (b.rewrite σ))
+  | .mul a b => rw1 σ (.mul (a.rewrite σ) (b.rewrite σ))
+  | .div a b => rw1 σ (.div (a.rewrite σ) (b.rewrite σ))
+  | .neg a => rw1 σ (.neg (a.rewrite σ))
+  | .call1 f a => rw1 σ (.call1 f (a.rewrite σ))
+  | .call2 f a b => rw1 σ (.call2 f (a.rewrite σ) (b.rewrite σ))
+  | .call3 f a b c => rw1 σ (.call3 f (a.rewrite σ) (b.rewrite σ) (c.rewrite σ))
+  | e => rw1 σ e
+
 /-- conditions with the same shape whose operands agree as polynomials over the atoms -/
 def condOK : C → C → Bool
   | .lt a b, .lt a' b' => polyEq a a' && polyEq b b'
